@@ -200,6 +200,14 @@ class Tables(Part):
             body.pop()
         desc = "W=%d (structural minimum %d, W_safe %d) table=%r" % (W, smin, safe, n)
         in_band = W < safe
+        # the columns' own no_wrap setting decides; rendering the table inside something that asks for no_wrap must not change it
+        t_nw, _, _ = build_table(n, W, smin, annotations=False)
+        body_nw = "".join(s.text for s in sut(lambda: list(con.render(t_nw, con.options.update(no_wrap=True)))) if not s.is_control).split("\n")
+        if body_nw and body_nw[-1] == "":
+            body_nw.pop()
+        if body_nw != body:
+            ctx.violation("columns", "C07/columns/outer-no_wrap", "the table renders differently when the enclosing options carry no_wrap=True\n%s\nvs\n%s\n%s" % ("\n".join(body_nw), "\n".join(body), desc))
+            return
         # (1) rectangle
         widths = sorted({OC.width(l) for l in body})
         if len(widths) > 1:
